@@ -10,26 +10,26 @@ import (
 
 // SVal: value of a spec expression.
 type SVal struct {
-	S    string
-	T    types.Type // Go type when the value is a Go value; nil for mathematical values
-	Sort string
-	P    *Ptr // location of this value (struct values embedded in the heap, fields)
-	Tgt  *Ptr // for pointer values: static description of the pointee, if known
-	Box  string // interface values: the boxed term, if statically known
+	S       string
+	T       types.Type // Go type when the value is a Go value; nil for mathematical values
+	Sort    string
+	P       *Ptr       // location of this value (struct values embedded in the heap, fields)
+	Tgt     *Ptr       // for pointer values: static description of the pointee, if known
+	Box     string     // interface values: the boxed term, if statically known
 	TypeArg types.Type // when the expression denotes a type
-	Nil  bool
+	Nil     bool
 }
 
 type Env struct {
-	t     *FnTrans
-	vars  map[string]SVal
-	st    *State // state for heap reads
-	old   *State // state for old()
-	local func(name string) (SVal, bool)
-	subst map[string]types.Type // callee type args
-	pkg   *types.Package
-	bound map[string]SVal
-	selfAlloc0 string // $alloc at entry of the contract's function (for fresh())
+	t           *FnTrans
+	vars        map[string]SVal
+	st          *State // state for heap reads
+	old         *State // state for old()
+	local       func(name string) (SVal, bool)
+	subst       map[string]types.Type // callee type args
+	pkg         *types.Package
+	bound       map[string]SVal
+	selfAlloc0  string // $alloc at entry of the contract's function (for fresh())
 	noOldSwitch bool
 }
 
@@ -578,6 +578,44 @@ func (e *Env) evalCall(x *Expr) SVal {
 		a := e.eval(x.Args[0])
 		b := e.eval(x.Args[1])
 		return SVal{S: app("err.is", a.S, b.S), Sort: "Bool"}
+	case "visited": // visited(k): k has been produced by the (single) map range loop of this function
+		k := e.eval(x.Args[0])
+		var comp string
+		for c := range t.compSort {
+			if strings.HasPrefix(c, "R.") && strings.HasSuffix(c, ".visited") {
+				if comp != "" {
+					e.errf(x, "visited(): more than one map range in this function")
+				}
+				comp = c
+			}
+		}
+		if comp == "" {
+			e.errf(x, "visited(): no map range in this function")
+		}
+		return SVal{S: e.inState(func() string { return app("select", t.get(comp), k.S) }), Sort: "Bool"}
+	case "aload": // aload(p): current value of the sync/atomic object p points to (sequential reading)
+		v := e.eval(x.Args[0])
+		n, ok := derefNamed(e.resolveT(v.T))
+		if !ok || n.Obj().Pkg() == nil || n.Obj().Pkg().Path() != "sync/atomic" {
+			e.errf(x, "aload of a non-atomic")
+		}
+		p, ok2 := t.atomicCell(Val{S: v.S}, "sync/atomic."+n.Obj().Name()+".Load")
+		if !ok2 {
+			e.errf(x, "aload: unsupported atomic type")
+		}
+		return SVal{S: e.inState(func() string { return t.load(p) }), T: p.T, Sort: t.sortOf(p.T)}
+	case "hasprefix": // hasprefix(s, p): p is a prefix of s (abstract byte strings)
+		a, b := e.eval(x.Args[0]), e.eval(x.Args[1])
+		return SVal{S: app("sprefix", b.S, a.S), Sort: "Bool"}
+	case "cat":
+		a, b := e.eval(x.Args[0]), e.eval(x.Args[1])
+		return SVal{S: app("scat", a.S, b.S), Sort: "Str"}
+	case "str": // str(b): the string with the bytes of slice b
+		v := e.eval(x.Args[0])
+		if v.Sort == "Str" {
+			return v
+		}
+		return SVal{S: e.inState(func() string { return t.bytesToStr(v.S) }), Sort: "Str"}
 	case "bitand":
 		return SVal{S: app("bit.and", e.evalInt(x.Args[0]), e.evalInt(x.Args[1])), Sort: "Int"}
 	case "pow2":
@@ -639,6 +677,9 @@ func (e *Env) evalCall(x *Expr) SVal {
 	case "held", "rheld":
 		// held(x.mu): write-held; rheld: read- or write-held
 		lc, ref := e.lockComp(x.Args[0])
+		if t.inRequires {
+			t.heldAtEntry[lc] = append(t.heldAtEntry[lc], ref)
+		}
 		s := e.inState(func() string { return app("select", t.get(lc), ref) })
 		if x.Name == "held" {
 			return SVal{S: eq(s, "2"), Sort: "Bool"}
